@@ -200,20 +200,19 @@ class DataFrameSchemaBackend(PandasSchemaBackend):
         check_passed = []
         # schema-component-level checks
         for schema_component in schema_components:
-            # make sure the schema component mutations are reverted after
-            # validation
-            _orig_dtype = schema_component.dtype
-            _orig_coerce = schema_component.coerce
+            # apply the overrides below to a shallow copy: the schema component
+            # itself may be shared by validation calls running concurrently.
+            schema_component = copy.copy(schema_component)
+
+            if schema.dtype is not None:
+                # override column dtype with dataframe dtype
+                schema_component.dtype = schema.dtype  # type: ignore
+
+            # disable coercion at the schema component level since the
+            # dataframe-level schema already coerced it.
+            schema_component.coerce = False  # type: ignore
 
             try:
-                if schema.dtype is not None:
-                    # override column dtype with dataframe dtype
-                    schema_component.dtype = schema.dtype  # type: ignore
-
-                # disable coercion at the schema component level since the
-                # dataframe-level schema already coerced it.
-                schema_component.coerce = False  # type: ignore
-
                 result = schema_component.validate(
                     check_obj, lazy=lazy, inplace=True
                 )
@@ -240,10 +239,6 @@ class DataFrameSchemaBackend(PandasSchemaBackend):
                         for schema_error in err.schema_errors
                     ]
                 )
-            finally:
-                # revert the schema component mutations
-                schema_component.dtype = _orig_dtype
-                schema_component.coerce = _orig_coerce
 
         assert all(check_passed)
         return check_results
